@@ -125,7 +125,10 @@ def cases_for(tier, s):
         if tier == "thorough":
             variants += [(2, "objs", {}), (3, "compiled", {}), ("random", "none", {})]
         opts = {"scalar_type": ["float64", "float32", "complex128"][i % 3]} if r["b"] in ("mass", "stiff_nl", "nearmiss", "expr_suite") else {}
-        R.append({"kind": "stable", "request": {"recipe": r, "options": opts}, "variants": variants})
+        req = {"recipe": r, "options": opts}
+        if i % 2 == 0:  # several extra compiler flags (they are part of the signature), as real callers pass
+            req["compile_args"] = ["-O1", "-g0", "-fno-math-errno"]
+        R.append({"kind": "stable", "request": req, "variants": variants})
     # creation order / renumbering invariance
     for cell in ("triangle", "tetrahedron"):
         for knd in ("form", "expr"):
